@@ -8,8 +8,9 @@ from props import c01
 
 ID = "C02"
 LEVEL = "other"
-LEAN_MODULES = existing_modules(["Sonic.Props.C02"]) + ["Sonic.Props.C05", "Sonic.Spec.Json"]
-REQUIRED_THEOREMS = []
+LEAN_MODULES = ['Sonic.Props.C02', 'Sonic.Props.C05']
+REQUIRED_THEOREMS = ["Sonic.Props.C02." + n for n in ["C02_no_fault", "C02_reads_bounded", "C02_stack_bounded", "C02_node_full", "C02_teardown_init", "C02_reusable",
+                                                         "C02_no_leak"]]
 CONFIGS = [("avx2", "san"), ("sse", "san"), ("avx2", "prod"), ("sse", "prod")]
 CONFIGS_THOROUGH = CONFIGS + [("dyn", "san"), ("dyn", "prod")]
 ENV = {"MALLOC_PERTURB_": "243"}   # glibc fills fresh blocks with 0x0C (= kStringFree: worst case for a stale node) in prod builds
@@ -25,8 +26,11 @@ EXPLANATION = ("What a Lean model cannot exhibit (undefined behaviour of compile
                "with the executable spec on accept/reject is a violation.")
 ASSUMPTIONS = ["std::vector growth of the depth stack and the base malloc are not modelled"]
 TRUSTED = ["ASan/UBSan/LSan, mmap guard pages and the harness ledger as observers of the compiled code"]
-LEVEL_TEXT = ("Partial: bounds/initialisation theorems over the checked-memory parser model as listed in the evidence; the runtime part "
-              "(real UB, heap) is validated by sanitizer, guard-page and ledger runs of the real code on the full corpus.")
+LEVEL_TEXT = ("Machine-checked proof (Lean 4) over the checked-memory parser model: for ANY bytes, width, padding and stale stack content no "
+              "read/write outside the len+64 buffer, no node-stack index >= max(16,len/2+2), no use or destruction of an unconstructed slot, "
+              "document reusable afterwards, nothing leaked (C02_no_fault, C02_reads_bounded, C02_stack_bounded, C02_teardown_init, C02_reusable, "
+              "C02_no_leak) - under the same per-input NumberCorrectOn hypothesis as C01. What a model cannot exhibit (real UB of compiled code, "
+              "the heap) is validated by sanitizer, guard-page, dirty-heap and ledger runs of the real code: partial by nature, level 'other'.")
 LEVEL_NOTE = "Trusted: Lean kernel; sanitizers, guard pages, tracking allocator; compiled Lean evaluation of the spec."
 TECHNIQUE = "Lean 4 checked-memory model theorems + sanitizer/guard-page/ledger validation of the real code on a differential corpus"
 
